@@ -48,11 +48,11 @@ type Thread struct {
 
 // Action is one enabled scheduling choice.
 type Action struct {
-	T       *Thread
-	Kind    Kind
-	Victim  *Thread // for Signal: which sleeper is woken (nil = no sleeper); for spurious: T itself
-	Spur    bool
-	Label   string
+	T      *Thread
+	Kind   Kind
+	Victim *Thread // for Signal: which sleeper is woken (nil = no sleeper); for spurious: T itself
+	Spur   bool
+	Label  string
 }
 
 func (a Action) String() string {
@@ -86,7 +86,7 @@ type Sched struct {
 	Widths   []int    // number of enabled actions at each step
 	objID    int
 	aborting bool
-	Crashes  []string // panics that escaped a model goroutine
+	Crashes  []string                 // panics that escaped a model goroutine
 	OnStep   func(step int, a Action) // called after the effect, before the thread resumes
 }
 
@@ -238,8 +238,8 @@ func (s *Sched) AllDone() bool {
 type Outcome int
 
 const (
-	Finished Outcome = iota // every thread returned
-	Quiescent               // nothing enabled except (unavailable) wake-ups: blocked forever
+	Finished  Outcome = iota // every thread returned
+	Quiescent                // nothing enabled except (unavailable) wake-ups: blocked forever
 	StepLimit
 )
 
